@@ -188,7 +188,17 @@ def m_getsize(eng, st, args, kwargs, node):
     p = args[0]
     n = VInt(z3.If(z3.Select(st.ghost['os_ex'].t, p.t), z3.Length(z3.Select(st.ghost['os'].t, p.t)), z3.Const(fresh_name('dirsize'), Int)))
     st.assume(n >= 0)
-    return [(st, n)]         # called right after os.path.exists in the code under contract; no concurrent deletion (single client)
+    outs = []
+    # a path that names neither a file nor a directory: os.stat fails - with FileNotFoundError, but also with NotADirectoryError (a
+    # component of the path is a file) or another OSError (a name longer than the file system allows); os.path.exists swallows all
+    # of them and answers False, getsize does not (no concurrent deletion: single client)
+    for s2, there in eng.branch(st, z3.Or(z3.Select(st.ghost['os_ex'].t, p.t), z3.Select(st.ghost['dirs'].t, p.t)), 'getsize:exists'):
+        if there:
+            outs.append((s2, n))
+        else:
+            for cls in ('FileNotFoundError', 'NotADirectoryError', 'OSError'):
+                outs.append(eng.exc(s2.fork(), cls, node))
+    return outs
 
 
 def externals():
